@@ -480,6 +480,10 @@ def migrate_step(cur, sdl_text, want_detail=True, verify=True, full=False):
         return r, None, B
     r['status'] = 'accepted'
     if not verify:
+        try:
+            r['script'] = M.get_last_migration().get_script(M)[:3000]
+        except Exception:
+            pass
         r['t'] = round(time.time() - t0, 2)
         return r, M, B
     dB = dump(B)
@@ -500,8 +504,7 @@ def migrate_step(cur, sdl_text, want_detail=True, verify=True, full=False):
         mig = M.get_last_migration()
         script = mig.get_script(M)
         r['script_len'] = len(script)
-        if want_detail:
-            r['script'] = script[:3000]
+        r['script'] = script[:3000]
         try:
             X = replay_stmts(cur, edgeql.parse_block(script))
             dX = dump(X)
@@ -537,6 +540,30 @@ def compare(S, B, dB=None, dS=None, own=True):
     return res or 'eq'
 
 
+def _norm_sdl(text):
+    """SDL text with the members of every union type `(A | B)` sorted: union_of is an unordered set in the
+    schema (the structural dump compares it as a set); the printed order follows object creation order"""
+    import re
+
+    def srt(m):
+        return '(' + ' | '.join(sorted(x.strip() for x in m.group(1).split('|'))) + ')'
+    return re.sub(r'\(([\w:]+(?:\s*\|\s*[\w:]+)+)\)', srt, text)
+
+
+def _norm_explicit(text):
+    """SDL text with explicitly stated default values removed (`on target delete restrict;`,
+    `readonly := false;`, the `single` / `optional` qualifiers) and blocks emptied by that collapsed"""
+    import re
+    t = _norm_sdl(text)
+    t = re.sub(r'\n\s*on target delete restrict;', '', t)
+    t = re.sub(r'\n\s*readonly := false;', '', t)
+    t = re.sub(r'\b(single|optional) (?=(multi |required )?(link|property) )', '', t)
+    t = re.sub(r'\b(required )(single )', r'\1', t)
+    for _ in range(3):
+        t = re.sub(r' \{\n\s*\};', ';', t)
+    return t
+
+
 def run_e2e_case(case):
     res = {'id': case.get('id'), 'steps': []}
     cur = std_schema()
@@ -561,10 +588,14 @@ def run_e2e_case(case):
                         from edb.schema import ddl as s_ddl
                         ta = s_ddl.sdl_text_from_schema(committed)
                         tb = s_ddl.sdl_text_from_schema(direct)
-                        if ta != tb:
-                            la, lb = ta.split('\n'), tb.split('\n')
-                            k = next((j for j, (x, y) in enumerate(zip(la, lb)) if x != y), min(len(la), len(lb)))
-                            cmpres = {'sdl_diff': [la[max(0, k - 1):k + 3], lb[max(0, k - 1):k + 3]]}
+                        if _norm_sdl(ta) != _norm_sdl(tb):
+                            import difflib
+                            la, lb = _norm_sdl(ta).split('\n'), _norm_sdl(tb).split('\n')
+                            dl = [l for l in difflib.unified_diff(la, lb, 'chain', 'direct', n=1, lineterm='')][:40]
+                            cmpres = {'sdl_diff': dl}
+                            # is the only difference a set of explicitly stated DEFAULT values?
+                            if _norm_explicit(ta) == _norm_explicit(tb):
+                                cmpres['sdl_diff_kind'] = 'only-explicit-default-values'
                     r['direct'] = {'status': 'accepted', 'cmp': cmpres}
             except Exception as e:  # noqa
                 r['direct'] = {'status': 'harness-error', 'err': errinfo(e)}
